@@ -42,12 +42,27 @@ func (t token) String() string {
 
 func errf(format string, args ...any) error { return fmt.Errorf("vsql: "+format, args...) }
 
+// The lexer and the parsers report errors by panicking with a sqlError, recovered by catch.
+type sqlError struct{ error }
+
+func fail(format string, args ...any) { panic(sqlError{errf(format, args...)}) }
+
+func catch(err *error) {
+	if r := recover(); r != nil {
+		e, ok := r.(sqlError)
+		if !ok {
+			panic(r)
+		}
+		*err = e.error
+	}
+}
+
 func isIdentStart(r rune) bool { return r == '_' || unicode.IsLetter(r) }
 func isIdentPart(r rune) bool  { return isIdentStart(r) || r == '$' || unicode.IsDigit(r) }
 func isDigit(c byte) bool      { return '0' <= c && c <= '9' }
 
 // lex splits SQL text into tokens, dropping whitespace, `--` and `/* */` comments.
-func lex(src string) ([]token, error) {
+func lex(src string) []token {
 	var out []token
 	for i := 0; i < len(src); {
 		c := src[i]
@@ -64,14 +79,14 @@ func lex(src string) ([]token, error) {
 		case strings.HasPrefix(src[i:], "/*"):
 			end := strings.Index(src[i+2:], "*/")
 			if end < 0 {
-				return nil, errf("syntax error: unterminated /* comment at offset %d", i)
+				fail("syntax error: unterminated /* comment at offset %d", i)
 			}
 			i += end + 4
 		case c == '\'' || c == '"':
 			var sb strings.Builder
 			for i++; ; i++ {
 				if i >= len(src) {
-					return nil, errf("syntax error: unterminated quoted string at offset %d", start)
+					fail("syntax error: unterminated quoted string at offset %d", start)
 				}
 				if src[i] == c {
 					if i+1 < len(src) && src[i+1] == c { // doubled quote
@@ -85,7 +100,7 @@ func lex(src string) ([]token, error) {
 			i++
 			if c == '"' {
 				if sb.Len() == 0 {
-					return nil, errf("syntax error: zero-length delimited identifier at offset %d", start)
+					fail("syntax error: zero-length delimited identifier at offset %d", start)
 				}
 				out = append(out, token{kind: tQIdent, s: sb.String(), pos: start})
 			} else {
@@ -99,7 +114,7 @@ func lex(src string) ([]token, error) {
 			if j > i+1 {
 				n, err := strconv.Atoi(src[i+1 : j])
 				if err != nil || (j < len(src) && isIdentStart(rune(src[j]))) {
-					return nil, errf("syntax error: invalid placeholder %q", src[i:j])
+					fail("syntax error: invalid placeholder %q", src[i:j])
 				}
 				out = append(out, token{kind: tParam, n: n, s: src[i:j], pos: start})
 				i = j
@@ -109,12 +124,12 @@ func lex(src string) ([]token, error) {
 				j++
 			}
 			if j >= len(src) || src[j] != '$' {
-				return nil, errf("syntax error at or near \"$\" (offset %d)", i)
+				fail("syntax error at or near \"$\" (offset %d)", i)
 			}
 			tag := src[i : j+1]
 			end := strings.Index(src[j+1:], tag)
 			if end < 0 {
-				return nil, errf("syntax error: unterminated dollar-quoted string at offset %d", i)
+				fail("syntax error: unterminated dollar-quoted string at offset %d", i)
 			}
 			out = append(out, token{kind: tDollar, s: src[j+1 : j+1+end], pos: start})
 			i = j + 1 + end + len(tag)
@@ -137,7 +152,7 @@ func lex(src string) ([]token, error) {
 				}
 			}
 			if r, _ := utf8.DecodeRuneInString(src[i:]); i < len(src) && isIdentStart(r) {
-				return nil, errf("syntax error: trailing junk after numeric literal %q", src[start:i])
+				fail("syntax error: trailing junk after numeric literal %q", src[start:i])
 			}
 			out = append(out, token{kind: tNum, s: src[start:i], pos: start})
 		default:
@@ -155,10 +170,10 @@ func lex(src string) ([]token, error) {
 			}
 		}
 	}
-	return append(out, token{kind: tEOF, pos: len(src)}), nil
+	return append(out, token{kind: tEOF, pos: len(src)})
 }
 
-// parser is a cursor over a token slice.
+// parser is a cursor over a token slice. Its methods panic (see fail) on syntax errors.
 type parser struct {
 	src  string
 	toks []token
@@ -176,8 +191,8 @@ func (p *parser) next() token {
 
 func (p *parser) isKw(kw string) bool   { t := p.peek(); return t.kind == tIdent && t.s == kw }
 func (p *parser) isPunct(c string) bool { t := p.peek(); return t.kind == tPunct && t.s == c }
-func (p *parser) unexpected(want string) error {
-	return errf("syntax error at or near %v (offset %d): expected %s", p.peek(), p.peek().pos, want)
+func (p *parser) unexpected(want string) {
+	fail("syntax error at or near %v (offset %d): expected %s", p.peek(), p.peek().pos, want)
 }
 
 // acceptKw consumes the given keywords if they all come next.
@@ -199,69 +214,56 @@ func (p *parser) acceptPunct(c string) bool {
 	return false
 }
 
-func (p *parser) expectKw(kws ...string) error {
+func (p *parser) expectKw(kws ...string) {
 	if !p.acceptKw(kws...) {
-		return p.unexpected(strings.ToUpper(strings.Join(kws, " ")))
+		p.unexpected(strings.ToUpper(strings.Join(kws, " ")))
 	}
-	return nil
 }
 
-func (p *parser) expectPunct(c string) error {
+func (p *parser) expectPunct(c string) {
 	if !p.acceptPunct(c) {
-		return p.unexpected(strconv.Quote(c))
+		p.unexpected(strconv.Quote(c))
 	}
-	return nil
 }
 
 // ident reads an identifier (folded unless quoted).
-func (p *parser) ident(what string) (string, error) {
-	if t := p.peek(); t.kind == tIdent || t.kind == tQIdent {
-		p.i++
-		return t.s, nil
+func (p *parser) ident(what string) string {
+	t := p.peek()
+	if t.kind != tIdent && t.kind != tQIdent {
+		p.unexpected(what)
 	}
-	return "", p.unexpected(what)
+	p.i++
+	return t.s
 }
 
 // identList reads `( ident, ident, ... )` when parens is set, else `ident, ident, ...`.
-func (p *parser) identList(parens bool, what string) ([]string, error) {
+func (p *parser) identList(parens bool, what string) []string {
 	if parens {
-		if err := p.expectPunct("("); err != nil {
-			return nil, err
-		}
+		p.expectPunct("(")
 	}
-	var out []string
-	for {
-		name, err := p.ident(what)
-		if err != nil {
-			return nil, err
-		}
-		out = append(out, name)
-		if !p.acceptPunct(",") {
-			break
-		}
+	out := []string{p.ident(what)}
+	for p.acceptPunct(",") {
+		out = append(out, p.ident(what))
 	}
 	if parens {
-		return out, p.expectPunct(")")
+		p.expectPunct(")")
 	}
-	return out, nil
+	return out
 }
 
 // skipBalanced consumes a parenthesised group, the cursor being on "(".
-func (p *parser) skipBalanced() error {
-	if err := p.expectPunct("("); err != nil {
-		return err
-	}
+func (p *parser) skipBalanced() {
+	p.expectPunct("(")
 	for depth := 1; depth > 0; {
 		switch t := p.next(); {
 		case t.kind == tEOF:
-			return errf("syntax error: unbalanced parenthesis")
+			fail("syntax error: unbalanced parenthesis")
 		case t.kind == tPunct && t.s == "(":
 			depth++
 		case t.kind == tPunct && t.s == ")":
 			depth--
 		}
 	}
-	return nil
 }
 
 // literal is an SQL constant: NULL, TRUE/FALSE, a number (with sign) or a 'string'.
@@ -287,20 +289,19 @@ func (l literal) String() string {
 func (p *parser) literal() (lit literal, ok bool) {
 	switch t := p.peek(); {
 	case t.kind == tStr:
-		p.i++
-		return literal{kind: 's', s: t.s}, true
+		lit = literal{kind: 's', s: t.s}
 	case t.kind == tNum:
-		p.i++
-		return literal{kind: '#', s: t.s}, true
+		lit = literal{kind: '#', s: t.s}
 	case t.kind == tPunct && (t.s == "-" || t.s == "+") && p.toks[p.i+1].kind == tNum:
-		p.i += 2
-		return literal{kind: '#', s: strings.TrimPrefix(t.s, "+") + p.toks[p.i-1].s}, true
+		p.i++
+		lit = literal{kind: '#', s: strings.TrimPrefix(t.s, "+") + p.peek().s}
 	case t.kind == tIdent && (t.s == "true" || t.s == "false"):
-		p.i++
-		return literal{kind: 'b', b: t.s == "true"}, true
+		lit = literal{kind: 'b', b: t.s == "true"}
 	case t.kind == tIdent && t.s == "null":
-		p.i++
-		return literal{kind: 'n'}, true
+		lit = literal{kind: 'n'}
+	default:
+		return lit, false
 	}
-	return literal{}, false
+	p.i++
+	return lit, true
 }
